@@ -292,6 +292,9 @@ func (x *Exec) symbolic(st *State, name string, t types.Type) SVal {
 			st.assume("(>= " + cp + " " + ln + ")")
 			if _, ok := st.Heap[arr]; !ok {
 				st.Heap[arr] = SVal{K: KU, T: q(x.D.constOf(arr, "(Array Int "+sortOf(sl.Elem())+")"))}
+				if st.Init != nil {
+					st.Init[arr] = st.Heap[arr]
+				}
 			}
 		}
 		return SVal{K: KSlice, Loc: arr, Off: "0", Len: ln, Cap: cp, GoT: t, Src: name}
@@ -1147,6 +1150,10 @@ func splitElem(loc string) (arr, idx string) {
 }
 
 func (x *Exec) storeElem(st *State, addr SVal, v SVal) {
+	if strings.Contains(addr.Loc, "##") {
+		x.unsupp(st, "store to a field of a struct held in a slice element")
+		return
+	}
 	arr, idx := splitElem(addr.Loc)
 	cur, ok := st.Heap[arr]
 	if !ok {
